@@ -1,8 +1,23 @@
 package main
 
 import (
+	"bufio"
+	"bytes"
+	"context"
 	"encoding/json"
+	"flag"
+	"fmt"
 	"os"
+	osexec "os/exec"
+	"path/filepath"
+	"sort"
+	"strconv"
+	"strings"
+	"sync"
+	"time"
+
+	"gosym/exec"
+	"gosym/load"
 )
 
 type knownEntry struct {
@@ -32,8 +47,618 @@ func loadKnown(path string) map[string]string {
 	m := map[string]string{}
 	for _, e := range loadKnownEntries(path) {
 		m[e.ID] = e.Status
+		if e.Status == "known" {
+			for _, l := range e.Labels {
+				m["label:"+e.ID+":"+l] = "1"
+			}
+		}
 	}
 	return m
 }
 
-func cmdCheck(args []string) int { return 2 }
+// job: one harness run with fixed shape variables.
+type job struct {
+	Harness string         `json:"harness"`
+	Bounds  map[string]int `json:"bounds"`
+}
+
+type replayFile struct {
+	Property string            `json:"property"`
+	Harness  string            `json:"harness"`
+	Bounds   map[string]int    `json:"bounds"`
+	Inputs   []exec.InputVal   `json:"inputs"`
+	Known    map[string]string `json:"known"`
+	Label    string            `json:"label"`
+	Kind     string            `json:"kind"`
+	Pos      string            `json:"pos,omitempty"`
+}
+
+func envInt(name string, def int) int {
+	if v, err := strconv.Atoi(os.Getenv(name)); err == nil {
+		return v
+	}
+	return def
+}
+
+func expandJobs(r HarnessRun, tier string) []job {
+	b := r.Quick
+	if tier == "thorough" && r.Thorough != nil {
+		b = r.Thorough
+	}
+	jobs := []job{{Harness: r.Name, Bounds: map[string]int{}}}
+	for k, v := range b {
+		jobs[0].Bounds[k] = v
+	}
+	for _, sd := range r.Split {
+		n := sd.Count(jobs[0].Bounds)
+		var next []job
+		for _, j := range jobs {
+			for i := 0; i < n; i++ {
+				nb := map[string]int{}
+				for k, v := range j.Bounds {
+					nb[k] = v
+				}
+				nb["fix."+sd.Name] = i
+				next = append(next, job{Harness: j.Harness, Bounds: nb})
+			}
+		}
+		jobs = next
+	}
+	return jobs
+}
+
+func boundsStr(b map[string]int) string {
+	var ks []string
+	for k := range b {
+		ks = append(ks, k)
+	}
+	sort.Strings(ks)
+	var parts []string
+	for _, k := range ks {
+		parts = append(parts, fmt.Sprintf("%s=%d", k, b[k]))
+	}
+	return strings.Join(parts, ",")
+}
+
+func cmdCheck(args []string) int {
+	fs := flag.NewFlagSet("check", flag.ExitOnError)
+	propID := fs.String("prop", "", "property id")
+	tier := fs.String("tier", "quick", "quick|thorough")
+	repo := fs.String("repo", "/repo", "")
+	verif := fs.String("verif", "/verif", "")
+	only := fs.String("only", "", "run only harnesses containing this substring")
+	workers := fs.Int("j", 16, "parallel workers")
+	noReplay := fs.Bool("no-replay", false, "skip native replays (diagnosis only; never exit 0)")
+	fs.Parse(args)
+	if t := os.Getenv("VERIF_TIER"); t == "quick" || t == "thorough" {
+		if !flagSet(fs, "tier") {
+			*tier = t
+		}
+	}
+	seed := envInt("VERIF_SEED", 1)
+	prop, ok := props[*propID]
+	if !ok {
+		fmt.Fprintln(os.Stderr, "unknown property", *propID)
+		return 2
+	}
+	t0 := time.Now()
+	outDir := filepath.Join(*verif, "out", *propID)
+	os.RemoveAll(outDir)
+	os.MkdirAll(outDir, 0755)
+	os.MkdirAll(filepath.Join(*verif, "evidence"), 0755)
+	knownPath := filepath.Join(*verif, "known_findings.json")
+	known := loadKnown(knownPath)
+	knownEntries := loadKnownEntries(knownPath)
+
+	// 1. native replay binary, built concurrently with the exploration
+	var buildErr error
+	var buildOut string
+	replayBin := filepath.Join(outDir, "replay.test")
+	var wgBuild sync.WaitGroup
+	wgBuild.Add(1)
+	go func() {
+		defer wgBuild.Done()
+		if *noReplay {
+			return
+		}
+		buildOut, buildErr = buildReplay(*repo, filepath.Join(*verif, "harness"), outDir, replayBin)
+	}()
+
+	// 2. jobs
+	var jobs []job
+	for _, r := range prop.Runs {
+		if *only != "" && !strings.Contains(r.Name, *only) {
+			continue
+		}
+		jobs = append(jobs, expandJobs(r, *tier)...)
+	}
+	results := runJobs(jobs, *workers, *repo, filepath.Join(*verif, "harness"), knownPath, *tier)
+
+	wgBuild.Wait()
+	if buildErr != nil {
+		fmt.Fprintf(os.Stderr, "replay build failed: %v\n%s\n", buildErr, buildOut)
+	}
+
+	// 3. merge
+	ev := newEvidence(*propID, *tier, seed)
+	inconclusive := []string{}
+	type cand struct {
+		v *exec.Violation
+		j job
+	}
+	var cands []cand
+	reachedAll := map[string]map[string]int{}
+	var witnesses []struct {
+		w *exec.Witness
+		j job
+	}
+	knownHit := map[string]bool{}
+	for i, r := range results {
+		j := jobs[i]
+		if r == nil {
+			inconclusive = append(inconclusive, "worker failed for "+j.Harness+" "+boundsStr(j.Bounds))
+			continue
+		}
+		ev.addResult(r)
+		if r.Error != "" {
+			inconclusive = append(inconclusive, j.Harness+": "+r.Error)
+		}
+		for msg, n := range r.Unsupported {
+			inconclusive = append(inconclusive, fmt.Sprintf("%s: unsupported construct reached on %d path(s): %s", j.Harness, n, msg))
+		}
+		if r.UnknownObl > 0 {
+			inconclusive = append(inconclusive, fmt.Sprintf("%s: %d obligation(s) with solver result unknown", j.Harness, r.UnknownObl))
+		}
+		if r.SolverErrs > 0 {
+			inconclusive = append(inconclusive, fmt.Sprintf("%s: %d solver error line(s)", j.Harness, r.SolverErrs))
+		}
+		if r.TimedOut {
+			inconclusive = append(inconclusive, j.Harness+" "+boundsStr(j.Bounds)+": time budget exhausted before the path space was covered")
+		}
+		if r.ConcCapHits > 0 {
+			inconclusive = append(inconclusive, fmt.Sprintf("%s: concretisation cap reached %d time(s)", j.Harness, r.ConcCapHits))
+		}
+		for _, v := range r.Violations {
+			cands = append(cands, cand{v, j})
+		}
+		if reachedAll[j.Harness] == nil {
+			reachedAll[j.Harness] = map[string]int{}
+		}
+		for l, n := range r.Reached {
+			reachedAll[j.Harness][l] += n
+		}
+		for _, w := range r.Witnesses {
+			witnesses = append(witnesses, struct {
+				w *exec.Witness
+				j job
+			}{w, j})
+		}
+		for id, h := range r.KnownHit {
+			if h {
+				knownHit[id] = true
+			}
+		}
+	}
+	// vacuity: required reach labels
+	for _, r := range prop.Runs {
+		if *only != "" && !strings.Contains(r.Name, *only) {
+			continue
+		}
+		for _, l := range r.Reach {
+			if reachedAll[r.Name][l] == 0 {
+				inconclusive = append(inconclusive, fmt.Sprintf("%s: reach label %q not covered by any feasible path (vacuity check)", r.Name, l))
+			}
+		}
+	}
+
+	// 4. native replays
+	violations := 0
+	validated := 0
+	var vioLines []string
+	if !*noReplay && buildErr == nil {
+		// witnesses: sample per harness (all in thorough)
+		perHarness := map[string]int{}
+		sort.SliceStable(witnesses, func(a, b int) bool {
+			ha := fmt.Sprintf("%s|%s|%d", witnesses[a].j.Harness, witnesses[a].w.Label, seed)
+			hb := fmt.Sprintf("%s|%s|%d", witnesses[b].j.Harness, witnesses[b].w.Label, seed)
+			return hashStr(ha) < hashStr(hb)
+		})
+		seenWL := map[string]bool{}
+		maxW := 3
+		if *tier == "thorough" {
+			maxW = 1000
+		}
+		type wjob struct {
+			file  string
+			label string
+			h     string
+		}
+		var wjobs []wjob
+		for _, wj := range witnesses {
+			key := wj.j.Harness + "|" + wj.w.Label
+			if seenWL[key] || perHarness[wj.j.Harness] >= maxW {
+				continue
+			}
+			seenWL[key] = true
+			perHarness[wj.j.Harness]++
+			f := filepath.Join(outDir, fmt.Sprintf("witness-%d.json", len(wjobs)))
+			writeJSON(f, replayFile{Property: *propID, Harness: wj.j.Harness, Bounds: wj.j.Bounds, Inputs: wj.w.Inputs, Known: known, Label: wj.w.Label, Kind: "witness"})
+			wjobs = append(wjobs, wjob{f, wj.w.Label, wj.j.Harness})
+		}
+		type wres struct {
+			rr  *replayResult
+			err error
+		}
+		wr := make([]wres, len(wjobs))
+		parallel(len(wjobs), *workers, func(i int) {
+			rr, err := runReplay(replayBin, wjobs[i].file, 60*time.Second)
+			wr[i] = wres{rr, err}
+		})
+		for i, w := range wjobs {
+			rr, err := wr[i].rr, wr[i].err
+			switch {
+			case err != nil:
+				inconclusive = append(inconclusive, fmt.Sprintf("witness replay %s failed to run: %v", w.file, err))
+			case rr.Infeasible:
+				inconclusive = append(inconclusive, fmt.Sprintf("translation validation: witness %s (%s/%s) is infeasible natively", w.file, w.h, w.label))
+			case !contains(rr.Reached, w.label):
+				inconclusive = append(inconclusive, fmt.Sprintf("translation validation: native run of %s does not reach %q", w.file, w.label))
+			case len(rr.Failed) > 0:
+				inconclusive = append(inconclusive, fmt.Sprintf("translation validation: native run of witness %s fails %v although the engine discharged it", w.file, rr.Failed))
+			default:
+				validated++
+			}
+		}
+		// counterexamples
+		for i, c := range cands {
+			f := filepath.Join(outDir, fmt.Sprintf("cex-%d.json", i))
+			writeJSON(f, replayFile{Property: *propID, Harness: c.j.Harness, Bounds: c.j.Bounds, Inputs: c.v.Inputs, Known: known, Label: c.v.Label, Kind: c.v.Kind, Pos: c.v.Pos})
+			tmo := 60 * time.Second
+			if c.v.Kind == "unwind" {
+				tmo = 10 * time.Second
+			}
+			rr, err := runReplay(replayBin, f, tmo)
+			confirmed := false
+			switch {
+			case err == errReplayTimeout && c.v.Kind == "unwind":
+				confirmed = true
+			case err != nil:
+				inconclusive = append(inconclusive, fmt.Sprintf("counterexample replay %s failed to run: %v", f, err))
+			case c.v.Kind == "panic" || c.v.Kind == "deadlock":
+				for _, l := range rr.Failed {
+					if strings.HasPrefix(l, "panic") {
+						confirmed = true
+					}
+				}
+			default:
+				confirmed = contains(rr.Failed, c.v.Label)
+			}
+			if confirmed {
+				validated++
+				if c.v.Known != "" {
+					knownHit[c.v.Known] = true
+					continue
+				}
+				violations++
+				vioLines = append(vioLines, fmt.Sprintf("VIOLATION property=%s replay=%s", *propID, f))
+				ev.Coverage["violation_"+strconv.Itoa(violations)] = fmt.Sprintf("%s: %s at %s", c.j.Harness, c.v.Label, c.v.Pos)
+			} else if err == nil {
+				inconclusive = append(inconclusive, fmt.Sprintf("counterexample %s (%s: %s) does not reproduce natively: encoder or stub mismatch", f, c.j.Harness, c.v.Label))
+			}
+		}
+	} else if len(cands) > 0 || *noReplay {
+		inconclusive = append(inconclusive, "native replay unavailable")
+	}
+
+	// 5. known findings
+	for _, e := range knownEntries {
+		if e.Property != *propID || e.Status != "known" {
+			continue
+		}
+		if knownHit[e.ID] {
+			fmt.Printf("KNOWN-FINDING: property=%s %s (%s)\n", *propID, e.What, e.ID)
+		} else {
+			fmt.Printf("NOTE: known finding %s no longer reproduces within the explored bounds\n", e.ID)
+		}
+	}
+
+	// 6. evidence
+	ev.Coverage["traces_validated_against_impl"] = validated
+	ev.Coverage["inconclusive"] = inconclusive
+	ev.Coverage["reach_labels"] = reachedAll
+	ev.Coverage["design_ref"] = prop.DesignRef
+	ev.Violations = violations
+	ev.Assumptions = append(ev.Assumptions, prop.Assumptions...)
+	ev.WallS = time.Since(t0).Seconds()
+	ev.finish()
+	writeJSON(filepath.Join(*verif, "evidence", *propID+".json"), ev)
+
+	for _, l := range vioLines {
+		fmt.Println(l)
+	}
+	fmt.Printf("%s %s: jobs=%d paths=%d obligations=%d discharged=%d queries=%d solver=%.1fs replays=%d wall=%.1fs\n",
+		*propID, *tier, len(jobs), ev.Coverage["states"], ev.Coverage["obligations"], ev.Coverage["discharged"], ev.Coverage["queries"], ev.Coverage["solver_s"], validated, ev.WallS)
+	if violations > 0 {
+		return 1
+	}
+	if len(inconclusive) > 0 {
+		for _, m := range inconclusive {
+			fmt.Println("INCONCLUSIVE:", m)
+		}
+		return 2
+	}
+	return 0
+}
+
+func flagSet(fs *flag.FlagSet, name string) bool {
+	set := false
+	fs.Visit(func(f *flag.Flag) {
+		if f.Name == name {
+			set = true
+		}
+	})
+	return set
+}
+
+func contains(xs []string, s string) bool {
+	for _, x := range xs {
+		if x == s {
+			return true
+		}
+	}
+	return false
+}
+
+func hashStr(s string) uint32 {
+	h := uint32(2166136261)
+	for i := 0; i < len(s); i++ {
+		h = (h ^ uint32(s[i])) * 16777619
+	}
+	return h
+}
+
+func parallel(n, workers int, f func(i int)) {
+	var wg sync.WaitGroup
+	ch := make(chan int)
+	for w := 0; w < workers && w < n; w++ {
+		wg.Add(1)
+		go func() {
+			defer wg.Done()
+			for i := range ch {
+				f(i)
+			}
+		}()
+	}
+	for i := 0; i < n; i++ {
+		ch <- i
+	}
+	close(ch)
+	wg.Wait()
+}
+
+// runJobs runs the jobs on a pool of worker processes (`gosym serve`).
+func runJobs(jobs []job, workers int, repo, hdir, known, tier string) []*WorkerResult {
+	results := make([]*WorkerResult, len(jobs))
+	if len(jobs) == 0 {
+		return results
+	}
+	if workers > len(jobs) {
+		workers = len(jobs)
+	}
+	self, _ := os.Executable()
+	type item struct {
+		idx int
+	}
+	ch := make(chan int)
+	var wg sync.WaitGroup
+	for w := 0; w < workers; w++ {
+		wg.Add(1)
+		go func() {
+			defer wg.Done()
+			var cmd *osexec.Cmd
+			var in *json.Encoder
+			var out *bufio.Reader
+			start := func() error {
+				cmd = osexec.Command(self, "serve", "-repo", repo, "-harness-dir", hdir, "-known", known, "-tier", tier)
+				cmd.Stderr = os.Stderr
+				ip, err := cmd.StdinPipe()
+				if err != nil {
+					return err
+				}
+				op, err := cmd.StdoutPipe()
+				if err != nil {
+					return err
+				}
+				if err := cmd.Start(); err != nil {
+					return err
+				}
+				in = json.NewEncoder(ip)
+				out = bufio.NewReaderSize(op, 1<<20)
+				return nil
+			}
+			if err := start(); err != nil {
+				fmt.Fprintln(os.Stderr, "worker start:", err)
+				for range ch {
+				}
+				return
+			}
+			for idx := range ch {
+				if err := in.Encode(jobs[idx]); err != nil {
+					fmt.Fprintln(os.Stderr, "worker send:", err)
+					continue
+				}
+				line, err := out.ReadBytes('\n')
+				if err != nil {
+					fmt.Fprintln(os.Stderr, "worker died on", jobs[idx].Harness, boundsStr(jobs[idx].Bounds))
+					cmd.Wait()
+					if err := start(); err != nil {
+						for range ch {
+						}
+						return
+					}
+					continue
+				}
+				var r WorkerResult
+				if err := json.Unmarshal(line, &r); err != nil {
+					fmt.Fprintln(os.Stderr, "worker result:", err)
+					continue
+				}
+				results[idx] = &r
+			}
+			cmd.Process.Kill()
+			cmd.Wait()
+		}()
+	}
+	for i := range jobs {
+		ch <- i
+	}
+	close(ch)
+	wg.Wait()
+	return results
+}
+
+func cmdServe(args []string) int {
+	fs := flag.NewFlagSet("serve", flag.ExitOnError)
+	repo := fs.String("repo", "/repo", "")
+	hdir := fs.String("harness-dir", "/verif/harness", "")
+	knownF := fs.String("known", "/verif/known_findings.json", "")
+	tier := fs.String("tier", "quick", "")
+	fs.Parse(args)
+	t0 := time.Now()
+	p, err := load.Load(*repo, *hdir, "./...")
+	loadS := time.Since(t0).Seconds()
+	known := loadKnown(*knownF)
+	dec := json.NewDecoder(os.Stdin)
+	w := bufio.NewWriter(os.Stdout)
+	for {
+		var j job
+		if err := dec.Decode(&j); err != nil {
+			return 0
+		}
+		var res *WorkerResult
+		if err != nil {
+			res = &WorkerResult{Harness: j.Harness, Bounds: j.Bounds, Error: "load: " + err.Error()}
+		} else {
+			tmo := 10000
+			if *tier == "thorough" {
+				tmo = 120000
+			}
+			if v, ok := j.Bounds["query_timeout_ms"]; ok {
+				tmo = v
+			}
+			var budget time.Duration
+			if v, ok := j.Bounds["budget_s"]; ok {
+				budget = time.Duration(v) * time.Second
+			}
+			res = runWorker(p, loadS, j.Harness, j.Bounds, "z3", tmo, budget, known, 0)
+		}
+		data, _ := json.Marshal(res)
+		w.Write(data)
+		w.WriteByte('\n')
+		w.Flush()
+	}
+}
+
+// ------------------------------------------------------------------ replay
+
+func buildReplay(repo, hdir, outDir, bin string) (string, error) {
+	ov, err := load.Overlay(repo, hdir)
+	if err != nil {
+		return "", err
+	}
+	rep := map[string]string{}
+	for virt := range ov {
+		rel, _ := filepath.Rel(filepath.Join(repo, "internal", "zzverif"), virt)
+		rep[virt] = filepath.Join(hdir, rel)
+	}
+	ovFile := filepath.Join(outDir, "overlay.json")
+	writeJSON(ovFile, map[string]any{"Replace": rep})
+	cmd := osexec.Command("go", "test", "-c", "-vet=off", "-tags", "verif", "-overlay", ovFile, "-o", bin, load.Module+"/internal/zzverif/replay")
+	cmd.Dir = repo
+	cmd.Env = append(os.Environ(), "GOFLAGS=-mod=mod", "GOPROXY=off")
+	out, err := cmd.CombinedOutput()
+	return string(out), err
+}
+
+type replayResult struct {
+	Infeasible bool
+	Failed     []string
+	Reached    []string
+	Obs        []string
+	Raw        string
+}
+
+var errReplayTimeout = fmt.Errorf("replay timed out")
+
+func runReplay(bin, file string, timeout time.Duration) (*replayResult, error) {
+	ctx, cancel := context.WithTimeout(context.Background(), timeout)
+	defer cancel()
+	cmd := osexec.CommandContext(ctx, bin, "-test.run", "^TestVerifReplay$", "-test.v", "-test.count=1")
+	cmd.Env = append(os.Environ(), "VERIF_REPLAY="+file)
+	var buf bytes.Buffer
+	cmd.Stdout = &buf
+	cmd.Stderr = &buf
+	err := cmd.Run()
+	if ctx.Err() == context.DeadlineExceeded {
+		return nil, errReplayTimeout
+	}
+	rr := &replayResult{Raw: buf.String()}
+	got := false
+	for _, line := range strings.Split(buf.String(), "\n") {
+		line = strings.TrimSpace(line)
+		switch {
+		case strings.HasPrefix(line, "REPLAY-RESULT "):
+			got = true
+			rr.Infeasible = strings.Contains(line, "infeasible=true")
+		case strings.HasPrefix(line, "REPLAY-FAILED "):
+			rr.Failed = append(rr.Failed, strings.TrimPrefix(line, "REPLAY-FAILED "))
+		case strings.HasPrefix(line, "REPLAY-REACHED "):
+			rr.Reached = append(rr.Reached, strings.TrimPrefix(line, "REPLAY-REACHED "))
+		case strings.HasPrefix(line, "REPLAY-OBS "):
+			rr.Obs = append(rr.Obs, strings.TrimPrefix(line, "REPLAY-OBS "))
+		}
+	}
+	if !got {
+		return nil, fmt.Errorf("no REPLAY-RESULT line (err=%v): %s", err, tail(buf.String(), 400))
+	}
+	return rr, nil
+}
+
+func tail(s string, n int) string {
+	if len(s) > n {
+		return s[len(s)-n:]
+	}
+	return s
+}
+
+// cmdReplay: gosym replay <file> — rebuilds the replay binary and runs one model.
+func cmdReplay(args []string) int {
+	fs := flag.NewFlagSet("replay", flag.ExitOnError)
+	repo := fs.String("repo", "/repo", "")
+	verif := fs.String("verif", "/verif", "")
+	fs.Parse(args)
+	if fs.NArg() != 1 {
+		fmt.Fprintln(os.Stderr, "usage: gosym replay <file>")
+		return 2
+	}
+	outDir := filepath.Join(*verif, "out", "replay")
+	os.MkdirAll(outDir, 0755)
+	bin := filepath.Join(outDir, "replay.test")
+	if out, err := buildReplay(*repo, filepath.Join(*verif, "harness"), outDir, bin); err != nil {
+		fmt.Fprintln(os.Stderr, out, err)
+		return 2
+	}
+	rr, err := runReplay(bin, fs.Arg(0), 120*time.Second)
+	if err != nil {
+		fmt.Println("replay:", err)
+		if err == errReplayTimeout {
+			return 1
+		}
+		return 2
+	}
+	fmt.Print(rr.Raw)
+	if len(rr.Failed) > 0 {
+		return 1
+	}
+	return 0
+}
